@@ -561,3 +561,22 @@ func (c *Ctx) checkKeyMakers(prop string, min int) {
 			sprintf("the key built by %s does not depend on its parameter(s) %s: entries that differ only there share one store slot and overwrite each other", n, strings.Join(miss, ", ")))
 	}
 }
+
+
+// HelperCandidates lists the private single-caller helpers with effects that are not folded yet.
+func (c *Ctx) HelperCandidates() []*ssa.Function {
+	var out []*ssa.Function
+	for _, f := range c.P.Funcs {
+		if f.Parent() != nil || c.isThin(f) || c.isHelper(f) || c.helperCaller(f) == nil {
+			continue
+		}
+		if !(inPkg(f, "x/mhub2") || inPkg(f, "mhub2/keeper") || inPkg(f, "mhub2/types") || inPkg(f, "x/oracle") || inPkg(f, "oracle/keeper") || inPkg(f, "oracle/types")) {
+			continue
+		}
+		if len(c.Effects(f)) == 0 {
+			continue
+		}
+		out = append(out, f)
+	}
+	return out
+}
